@@ -204,9 +204,7 @@ impl Renamer {
                             source_name,
                             match_suffix,
                         )?;
-                        let new_rdlen = 2 + renamed_packet.len()
-                            - renamed_packet_name_offset
-                            - DNS_RR_HEADER_SIZE;
+                        let new_rdlen = 2 + renamed_packet.len() - renamed_packet_name_offset;
                         BigEndian::write_u16(
                             &mut renamed_packet[renamed_packet_offset_data + DNS_RR_RDLEN_OFFSET..],
                             new_rdlen as u16,
